@@ -131,12 +131,12 @@ func patchOverlay(repo, patchFile string) (map[string][]byte, bool) {
 	}
 	defer os.RemoveAll(tmp)
 	for _, f := range files {
-		src, err := os.ReadFile(filepath.Join(repo, f))
-		if err != nil {
-			return nil, false
-		}
 		dst := filepath.Join(tmp, f)
 		os.MkdirAll(filepath.Dir(dst), 0o755)
+		src, err := os.ReadFile(filepath.Join(repo, f))
+		if err != nil {
+			continue // a file the change adds: the patch creates it
+		}
 		if os.WriteFile(dst, src, 0o644) != nil {
 			return nil, false
 		}
